@@ -1,0 +1,122 @@
+// SPDX-License-Identifier: Apache-2.0
+//! Verification-only hooks (cargo feature `echo_verif`, off by default).
+//!
+//! Thin public wrappers around crate-private functions plus a scripted claim
+//! order for the parallel work queue. Nothing in this module is compiled or
+//! reachable unless the feature is enabled; with the feature enabled the hooks
+//! only add entry points (the claim script is inert unless one is installed).
+
+use std::sync::Mutex;
+
+use crate::footprint::Footprint;
+use crate::ident::{CompactRuleId, Hash, NodeKey};
+use crate::scheduler::{DeterministicScheduler, PendingRewrite, RewritePhase, SchedulerKind};
+use crate::snapshot_accum::SnapshotAccumulator;
+use crate::tick_delta::OpOrigin;
+use crate::tick_patch::{TickPatchError, WarpOp};
+use crate::warp_state::WarpState;
+
+/// Public wrapper around the crate-private canonical state diff.
+#[must_use]
+pub fn diff_state(before: &WarpState, after: &WarpState) -> Vec<WarpOp> {
+    crate::tick_patch::diff_state(before, after)
+}
+
+/// Public wrapper around the crate-private op application used by patch replay.
+///
+/// # Errors
+/// Returns the same typed error as `WarpTickPatchV1::apply_to_state`.
+pub fn apply_ops_to_state(state: &mut WarpState, ops: &[WarpOp]) -> Result<(), TickPatchError> {
+    crate::tick_patch::apply_ops_to_state(state, ops)
+}
+
+/// State root and WSC bytes computed by the columnar accumulator for `state`
+/// after applying `ops` to it (second, independent state-root implementation).
+#[must_use]
+pub fn accumulator_root_and_wsc(
+    state: &WarpState,
+    ops: Vec<WarpOp>,
+    root: &NodeKey,
+    schema_hash: Hash,
+    tick: u64,
+) -> (Hash, Vec<u8>) {
+    let mut acc = SnapshotAccumulator::from_warp_state(state);
+    acc.apply_ops(ops);
+    let out = acc.build(root, schema_hash, tick);
+    (out.state_root, out.wsc_bytes)
+}
+
+/// A raw scheduler candidate: arbitrary sort key and footprint.
+#[derive(Debug, Clone)]
+pub struct RawCandidate {
+    /// Rule family id (used by the legacy scheduler's ordering).
+    pub rule_id: Hash,
+    /// Compact rule id (used by the radix scheduler's ordering).
+    pub compact_rule: u32,
+    /// Scope hash (primary sort key).
+    pub scope_hash: Hash,
+    /// Scope node.
+    pub scope: NodeKey,
+    /// Declared footprint.
+    pub footprint: Footprint,
+}
+
+pub(crate) fn pending_from_raw(c: RawCandidate) -> PendingRewrite {
+    PendingRewrite {
+        rule_id: c.rule_id,
+        compact_rule: CompactRuleId(c.compact_rule),
+        scope_hash: c.scope_hash,
+        scope: c.scope,
+        footprint: c.footprint,
+        phase: RewritePhase::Matched,
+        origin: OpOrigin {
+            intent_id: 0,
+            rule_id: c.compact_rule,
+            match_ix: 0,
+            op_ix: 0,
+        },
+    }
+}
+
+/// Enqueues `candidates` in the given order into a fresh scheduler of `kind`,
+/// drains them and reserves each in drain order.
+///
+/// Returns `(scope_hash, compact_rule, rule_id, accepted)` in drain order.
+#[must_use]
+pub fn scheduler_drain_and_reserve(
+    kind: SchedulerKind,
+    candidates: Vec<RawCandidate>,
+) -> Vec<(Hash, u32, Hash, bool)> {
+    let mut sched = DeterministicScheduler::new(
+        kind,
+        std::sync::Arc::new(crate::telemetry::NullTelemetrySink),
+    );
+    let tx = crate::tx::TxId::from_raw(1);
+    for c in candidates {
+        sched.enqueue(tx, pending_from_raw(c));
+    }
+    let drained = sched.drain_for_tx(tx);
+    let mut out = Vec::with_capacity(drained.len());
+    for mut pr in drained {
+        let accepted = sched.reserve(tx, &mut pr);
+        out.push((pr.scope_hash, pr.compact_rule.0, pr.rule_id, accepted));
+    }
+    sched.finalize_tx(tx);
+    out
+}
+
+static CLAIM_SCRIPT: Mutex<Option<Vec<usize>>> = Mutex::new(None);
+
+/// Installs (or clears) a scripted claim order for the next call of
+/// `parallel::execute_work_queue`: entry `i` names the worker that claims work
+/// unit `i` (taken modulo the worker count; units beyond the script fall to
+/// worker 0). The script is consumed by the next call.
+pub fn set_claim_script(script: Option<Vec<usize>>) {
+    if let Ok(mut guard) = CLAIM_SCRIPT.lock() {
+        *guard = script;
+    }
+}
+
+pub(crate) fn take_claim_script() -> Option<Vec<usize>> {
+    CLAIM_SCRIPT.lock().ok().and_then(|mut g| g.take())
+}
